@@ -184,3 +184,18 @@ CHECKS["C09"] = dict(
     technique="exhaustive enumeration of (instantiation, position, value, background) plus explicit-state closure of the sorted-array state space",
     assumptions=["widths above 32 are outside the property; the bit-array model is trusted"],
 )
+
+CHECKS["C11"] = dict(
+    name="bitstream", harness=["checks/bitstream.c", "checks/bitstream32.c"], libs=[],
+    configs={"quick": ["pinned", "debug"], "thorough": ["pinned", "debug", "asan"]},
+    shards={"pinned": 16, "debug": 16, "asan": 16},
+    deadline={"quick": 120, "thorough": 1200},
+    rule="both supported word types (uint64_t default, uint32_t via VBITS/VBITSVAL) x every bit offset in [0, 3W) x every "
+         "width 1..W x value alphabet (all values for width <= 8 quick / 12 thorough, else 0, 1, all-ones, all-ones-1, MSB, "
+         "55.., AA.., walking one) x 4 prior contents; signed helpers: width 2..64 x all magnitudes for width <= 17, alphabet "
+         "beyond; class = (word type, offset mod W, one-/two-word)",
+    explanation="E-enum: after Set the stream plus two guard words on each side equals a bit-array model (MSB-first fields), Get "
+                "returns the value, and with PROT_NONE pages directly after the last / before the first word overlapping the "
+                "range any access to another word faults",
+    assumptions=["word types other than uint64_t and uint32_t are not instantiated"],
+)
